@@ -14,11 +14,13 @@ Min(S) == CHOOSE x \in S : \A y \in S : x <= y
 Max(S) == CHOOSE x \in S : \A y \in S : x >= y
 
 Nuc == 1..4
+\* (TLC evaluates [i \in 1..n |-> e] lazily and re-evaluates it on every use; `\o << >>` materialises a tuple)
+Tup(s) == s \o << >>
 IsLower(x) == x > 16
 Upper(x)   == IF x > 16 THEN x - 16 ELSE x
 Lower(x)   == IF x > 16 \/ x = 0 THEN x ELSE x + 16
-UpperW(w)  == [i \in 1..Len(w) |-> Upper(w[i])]
-LowerW(w)  == [i \in 1..Len(w) |-> Lower(w[i])]
+UpperW(w)  == Tup([i \in 1..Len(w) |-> Upper(w[i])])
+LowerW(w)  == Tup([i \in 1..Len(w) |-> Lower(w[i])])
 IsNucWord(w) == \A i \in 1..Len(w) : Upper(w[i]) \in Nuc
 
 \* The IUPAC table (docs: Cornish-Bowden 1985): code |-> the nucleotides it stands for.
@@ -44,15 +46,15 @@ CompCode(c) ==
     [] c = 9 -> 10 [] c = 10 -> 9 [] c = 11 -> 14 [] c = 14 -> 11
     [] c = 12 -> 13 [] c = 13 -> 12 [] c = 15 -> 15 [] OTHER -> c
 Comp(x) == IF x > 16 THEN CompCode(x - 16) + 16 ELSE CompCode(x)
-RC(w)   == [i \in 1..Len(w) |-> Comp(w[Len(w) + 1 - i])]
+RC(w)   == Tup([i \in 1..Len(w) |-> Comp(w[Len(w) + 1 - i])])
 
 \* Right rotation by k: the last k letters move to the front (k any integer).
-Rot(w, k) == LET n == Len(w) IN IF n = 0 THEN w ELSE [i \in 1..n |-> w[((i - 1 - k) % n) + 1]]
+Rot(w, k) == LET n == Len(w) IN IF n = 0 THEN w ELSE Tup([i \in 1..n |-> w[((i - 1 - k) % n) + 1]])
 
 \* The letters at cyclic positions a, a+1, ..., b-1 (0-based, a <= b, any integers >= 0).
 CycSlice(w, a, b) == IF b <= a \/ Len(w) = 0 THEN << >>
-                     ELSE [i \in 1..(b - a) |-> w[((a + i - 1) % Len(w)) + 1]]
-LinSlice(w, a, b) == IF b <= a THEN << >> ELSE [i \in 1..(b - a) |-> w[a + i]]
+                     ELSE LET n == Len(w) IN Tup([i \in 1..(b - a) |-> w[((a + i - 1) % n) + 1]])
+LinSlice(w, a, b) == IF b <= a THEN << >> ELSE Tup([i \in 1..(b - a) |-> w[a + i]])
 
 \* Equality of circles: same length and one is a rotation of the other.
 CycEq(u, v) == /\ Len(u) = Len(v)
@@ -62,7 +64,7 @@ CycOffsets(u, v) == IF Len(u) # Len(v) THEN {} ELSE IF Len(u) = 0 THEN {0}
                     ELSE {k \in 0..(Len(u) - 1) : \A i \in 1..Len(u) : u[i] = v[((i - 1 + k) % Len(v)) + 1]}
 
 \* q occurs at cyclic position p of w.
-AtCirc(w, p, q) == \A j \in 1..Len(q) : w[((p + j - 1) % Len(w)) + 1] = q[j]
+AtCirc(w, p, q) == LET n == Len(w) IN \A j \in 1..Len(q) : w[((p + j - 1) % n) + 1] = q[j]
 AtLin(w, p, q)  == p + Len(q) <= Len(w) /\ \A j \in 1..Len(q) : w[p + j] = q[j]
 \* Circular membership: q is no longer than w and is a factor of some rotation of w.
 OccursCirc(q, w) == /\ Len(q) <= Len(w)
